@@ -72,9 +72,13 @@ CLAIMS = {
  "C07": dict(cat="proof", ref="DESIGN.md §5 C07",
    text="Theorems (Properties_C07.v, axiom-free): model of termination.c for any number of LPs of a thread with a ghost history; for every sequence of forward executions, "
         "rollbacks and GVT notifications the accounting invariant holds and a thread votes at GVT g only if g reached the termination time or every LP's predicate is recorded "
-        "true at init or on an event still in its history with timestamp < g. Tie: real termination.c (hook exposes its thread-local counters) vs extracted model on generated "
+        "true at init or on an event still in its history with timestamp < g. At process.c level (C07_worker_termination_invariant, C07_worker_vote_sound; TW/WorkerTerm.v + WorkerTermProofs.v): the hooks "
+        "process.c calls (termination_on_lp_rollback with the straggler's / cancelled message's time, termination_on_msg_process after a forward execution, termination_on_gvt) are computed from the worker "
+        "model and proved legal operations of the termination model for EVERY script, so the invariant holds along every execution of the worker and the model's ghost history ends with the timestamps "
+        "of the entries the LP retains. Tie: real termination.c (hook exposes its thread-local counters) vs extracted model on generated "
         "histories dwelling on timestamp 0; vote soundness re-evaluated independently on the implementation's answers; end-to-end runs: at return every LP has committed >= target events "
-        "unless the GVT reached the termination time or the model ran out of events.",
+        "unless the GVT reached the termination time or the model ran out of events; LP-level scripted runs (low targets, late deliveries, cancellations): lps_to_end, max_t and every "
+        "termination_t compared with the model after every script line, and a recorded termination time must belong to a state that still exists.",
    note=TB + "g is a safe bound by C04; runs stopped by RootsimStop are outside the property.",
    tech="Coq proof (invariant by induction over operation histories) + differential correspondence of termination.c + end-to-end committed-count oracle"),
  "C08": dict(cat="proof", ref="DESIGN.md §5 C08",
